@@ -57,6 +57,9 @@ type Net struct {
 	Root    string
 	ownRoot bool
 	Stats   map[string]int
+	// AfterStimulus, if set, is called after every stimulus given to a node (at quiescence); it may set Halt.
+	AfterStimulus func(n *Node)
+	Halt          bool
 	// Filter, if set, restricts what correct holders may forward (scripted attacks use it to model delays).
 	Filter func(from, to *Node, m consensus.Message) bool
 }
@@ -166,10 +169,16 @@ func (net *Net) observe(n *Node) {
 	n.observed = true
 	n.trIdx += len(evs)
 	if len(evs) == 0 && !first {
+		if net.AfterStimulus != nil {
+			net.AfterStimulus(n)
+		}
 		return
 	}
 	for _, m := range net.Mons {
 		m.Observe(net, n, evs)
+	}
+	if net.AfterStimulus != nil {
+		net.AfterStimulus(n)
 	}
 }
 
@@ -419,6 +428,9 @@ func (net *Net) fixpoint(maxIter int, all bool) (int, bool) {
 	for iter := 0; iter < maxIter; iter++ {
 		progress := false
 		for _, j := range net.Alive() {
+			if net.Halt {
+				return total, true
+			}
 			offs := net.OffersTo(j, all)
 			if len(offs) == 0 {
 				continue
@@ -439,6 +451,9 @@ func (net *Net) fixpoint(maxIter int, all bool) (int, bool) {
 				byPeer[p] = append(byPeer[p], o.Msg)
 			}
 			for _, p := range order {
+				if net.Halt {
+					break
+				}
 				j.DeliverBatch(byPeer[p], p)
 				total += len(byPeer[p])
 				net.Steps += len(byPeer[p])
@@ -565,6 +580,9 @@ func (net *Net) RunSync(target uint64, roundBound uint32, adv func()) SyncResult
 		res.Phases = phase
 		if _, ok := net.Fixpoint(200); !ok {
 			res.Stuck = "gossip did not reach a fixpoint in 200 iterations"
+			return res
+		}
+		if net.Halt {
 			return res
 		}
 		if adv != nil {
